@@ -116,8 +116,8 @@ c.skip_cross = True
 c.mod("self._objs")
 c.wire = lambda bound, ghosts: bound["self"].f.__setitem__("_objs", [SObj(lay.LTChar, {}, "g0"), SObj(lay.LTAnno, {"_text": " "}, "sp"), SObj(lay.LTChar, {}, "g1")])
 c.stubs = {"pdfminer.layout:LTItem.analyze": _noop}
-c.ens("members-kept-and-one-line-break-appended-box-untouched", lambda self, old: And(
-    len(self._objs) == 4, [o.name for o in self._objs[:3]] == ["g0", "sp", "g1"], _is_anno(self._objs[3], "\n")))
+c.ens("members-kept-and-one-line-break-appended-box-untouched", lambda self, old: (
+    len(self._objs) == 4 and [o.name for o in self._objs[:3]] == ["g0", "sp", "g1"] and _is_anno(self._objs[3], "\n")))
 
 
 class _TextItem(T.Sort):
